@@ -58,11 +58,18 @@ func (e *Exec) inlinableRepoFunc(fn *ssa.Function) bool {
 	for _, b := range fn.Blocks {
 		for _, ins := range b.Instrs {
 			switch x := ins.(type) {
-			case *ssa.Go, *ssa.Select, *ssa.Defer:
+			case *ssa.Go, *ssa.Select:
 				return false
+			case *ssa.Defer:
+				if ci := e.resolveCallee(nil, &x.Call); ci.kind == ckUnmodelled {
+					return false
+				}
 			case *ssa.Call:
 				// only bodies whose calls are all modelled (contract, builtin, or in turn inlinable):
 				// an unmodelled call is better kept at the outer call, where it havocs less
+				if _, isParam := x.Common().Value.(*ssa.Parameter); isParam && !x.Common().IsInvoke() {
+					continue // a function-typed parameter: resolved at the inlined call (closure known there)
+				}
 				ci := e.resolveCallee(nil, x.Common())
 				if ci.kind == ckUnmodelled {
 					return false
